@@ -592,6 +592,11 @@ def compare_spec(case, obs, impl, ans, lane):
                                 "what": f"impl {a}, containing cell(s) {acc} have {[None if m is None else float(Fraction(m)) for m in want]}"})
                     break
             else:
+                if spec.get("ambig", [False] * npx)[pix] and any(cv[l] is None for cv in cellvals):
+                    # a sample of this column lies on a face and cells of this layer hold NaN: the column may or may not have
+                    # taken the NaN-valued neighbour; the per-sample bounds ignore missing candidates, so nothing is asserted
+                    skipped += 1
+                    break
                 lo, hi = spec["lo"][l][pix], spec["hi"][l][pix]
                 if lo is None or hi is None:
                     if a is not None and a != "nan":
